@@ -21,7 +21,39 @@ FX_CALLS = [r'abort_handle\.abort\(', r'Self::poll_expired__closure\(', r'\.canc
 
 VOCAB = Raw('''
 pub struct SEntry { pub handle: int }
+/// C09/C04: the log l1 extends l0 by exactly one Abort per entry of v (in the order `order` of their ids), each on the
+/// abort handle of that entry
+pub open spec fn aborted_all(v: Map<u64, SEntry>, l0: Seq<SEffect>, l1: Seq<SEffect>, order: Seq<u64>) -> bool {
+    &&& forall|i: int, j: int| 0 <= i < j < order.len() ==> order[i] != order[j]
+    &&& forall|i: int| 0 <= i < order.len() ==> v.contains_key(#[trigger] order[i])
+    &&& forall|k: u64| v.contains_key(k) ==> exists|i: int| 0 <= i < order.len() && #[trigger] order[i] == k
+    &&& l1.len() == l0.len() + order.len()
+    &&& forall|i: int| 0 <= i < l0.len() ==> #[trigger] l1[i] == l0[i]
+    &&& forall|i: int| 0 <= i < order.len() ==> (#[trigger] l1[l0.len() + i]) == (SEffect::Abort { handle: v[order[i]].handle })
+}
 ''')
+
+DROP_LOOP = '''
+    invariant
+        0 <= it__n <= it__all.len(), values__it@ == it__all.subrange(it__n, it__all.len() as int),
+        fx.log.len() == old(fx).log.len() + it__n,
+        forall|i: int| 0 <= i < old(fx).log.len() ==> #[trigger] fx.log[i] == old(fx).log[i],
+        forall|i: int| 0 <= i < it__n ==> (#[trigger] fx.log[old(fx).log.len() + i]) == (SEffect::Abort { handle: it__all[i].1.abort_handle.id() }), // @C09
+    ensures it__n == it__all.len(),
+    decreases it__all.len() - it__n
+'''
+DROP_POST = '''
+    proof {
+        let order = Seq::new(it__all.len(), |i: int| it__all[i].0);
+        assert(aborted_all(old(self)@, old(fx).log, fx.log, order)) by {
+            assert forall|k: u64| old(self)@.contains_key(k) implies exists|i: int| 0 <= i < order.len() && #[trigger] order[i] == k by {
+                assert(old(self).request_data@.contains_key(k));
+                let i = choose|i: int| 0 <= i < it__all.len() && (#[trigger] it__all[i]).0 == k;
+                assert(order[i] == k);
+            }
+        }
+    }
+'''
 
 IMPL_VOCAB = Raw('''
     /// abstract view: id -> identity of the abort handle of the request's handler
@@ -92,6 +124,14 @@ def parts():
                    !old(self)@.contains_key(request_id) ==> final(self).timers() =~= old(self).timers(), // @C16
                    sstep_remove(old(self)@, final(self)@, request_id, r is Some), // @C08
                '''),
+            Fn(SRC, r'impl Drop for InFlightRequests', 'drop', fx=True, tags='C16', fuse_iter=True,
+               loops=[DROP_LOOP], post=DROP_POST,
+               requires='old(self).wf(), // @core',
+               ensures='''
+                   // C09/C04: dropping the table (the channel went away) aborts the handler of every request still in flight, once each, and nothing else
+                   exists|order: Seq<u64>| aborted_all(old(self)@, old(fx).log, final(fx).log, order), // @C09,C04
+                   final(self)@ =~= old(self)@ && final(self).timers() =~= old(self).timers(), // @core
+               '''),
             Fn(SRC, IMPL, 'poll_expired', fx=True, tags='C16',
                hints=[('let lifted__r = Self::poll_expired__closure(', '''
                    proof {
@@ -131,5 +171,5 @@ def parts():
 
 def unit():
     from vx.extract import Unit
-    return Unit('server_table', prelude=['base.rs', 'time.rs', 'delay_queue.rs', 'server_models.rs'],
+    return Unit('server_table', prelude=['base.rs', 'time.rs', 'delay_queue.rs', 'server_models.rs', 'hash_iter.rs'],
                 parts=parts(), rules=TABLE_RULES, fx_fns=FX_CALLS, fx_prims=[], fx_type='SFx', lemmas=['server_history.rs'])
